@@ -271,7 +271,9 @@ def body_mean(case, ctx):
     r = R()
     _raster_labels(r, a)
     r.label("passes=%d" % passes, "excl=%s" % exname)
-    ref, tol, amb = F.mean_passes(a, passes, ex)
+    # the statement does not say in which precision the mean is formed: a float32 raster may be averaged in its own precision
+    single = a.dtype == np.float32
+    ref, tol, amb = F.mean_passes(a, passes, ex, band=1e-5 if single else 1e-9)
     x0 = a.astype(np.float64)
     exm = np.zeros((H, W), bool)
     for e in ex:
@@ -296,6 +298,10 @@ def body_mean(case, ctx):
     o = np.asarray(out.values, dtype=np.float64)
     if o.shape != (H, W):
         return r.fail("mean.shape", "shape %s" % (o.shape,))
+    if single or out.dtype == np.float32:
+        fin_ = x0[np.isfinite(x0)]
+        tol = np.maximum(tol, 64 * float(np.finfo(np.float32).eps) * (float(np.abs(fin_).max()) if fin_.size else 0.0))
+        r.label("mean:single_precision_bound")
     # cells excluded from the start are "passed through untouched": bit for bit; all others under the float64 forward bound
     with np.errstate(invalid="ignore"):
         same = (o == x0) | (np.isnan(o) & np.isnan(x0))
